@@ -792,7 +792,11 @@ def cmd_check(prop, tier, only, keep, seed):
     wall = time.time() - t_start
     ev = build_evidence(prop, plan, tier, seed, results, violations, known_lines, inconclusive, wall)
     os.makedirs(os.path.join(VERIF, 'evidence'), exist_ok=True)
-    write(os.path.join(VERIF, 'evidence', prop + '.json'), json.dumps(ev, indent=1))
+    if only or tier not in ('quick', 'thorough'):
+        # a partial or experimental run is not a record of the registered check: keep it apart (gitignored)
+        write(os.path.join(VERIF, 'evidence', 'logs', '%s.partial-%s.json' % (prop, tier)), json.dumps(ev, indent=1))
+    else:
+        write(os.path.join(VERIF, 'evidence', prop + '.json'), json.dumps(ev, indent=1))
     if keep:
         _scratch_dirs.remove(root)
         log('[vk] scratch kept at ' + root)
@@ -951,12 +955,43 @@ def cmd_setup():
 
 # ------------------------------------------------------------------ model self-test (Serval-style)
 def cmd_selftest_model(cap=24):
+    rc = 0
+    for variant in (None, 'compact'):
+        rc = max(rc, _selftest_shared(cap, variant))
+    rc = max(rc, _selftest_diff())
+    return rc
+
+
+def _selftest_diff():
+    """Native differential test of the compact map/set, Vec, inline Vec and BTreeSet models against std (model/difftest.rs)."""
+    root = mkscratch('difftest')
+    write(os.path.join(root, 'Cargo.toml'), '[package]\nname = "mt"\nversion = "0.0.0"\nedition = "2021"\n\n[dependencies]\nserde = { version = "1" }\n\n'
+          '[lints.rust]\nunexpected_cfgs = { level = "allow" }\n\n[workspace]\n')
+    shutil.copy(os.path.join(REPO, 'Cargo.lock'), os.path.join(root, 'Cargo.lock'))
+    vc = read(os.path.join(VERIF, 'model', 'vcoll.rs'))
+    write(os.path.join(root, 'src', 'vcoll.rs'), vc)
+    write(os.path.join(root, 'src', 'lib.rs'), 'pub mod vcoll;\n')
+    write(os.path.join(root, 'tests', 'difftest.rs'), read(os.path.join(VERIF, 'model', 'difftest.rs')))
+    r = subprocess.run(['cargo', 'test', '--offline', '--test', 'difftest'], cwd=root, env=base_env(), stdout=subprocess.PIPE, stderr=subprocess.STDOUT, text=True)
+    ok = re.findall(r'^test (\S+) \.\.\. ok', r.stdout, re.M)
+    bad = re.findall(r'^test (\S+) \.\.\. FAILED', r.stdout, re.M)
+    log('[vk] selftest-model (differential vs std): %d pass, %d FAILED' % (len(ok), len(bad)))
+    if bad or not ok:
+        log(r.stdout[-3000:])
+        return 1
+    shutil.rmtree(root, ignore_errors=True)
+    return 0
+
+
+def _selftest_shared(cap, variant):
     """Run shared's own unit tests natively with T1 applied: every test must pass or stop at the model's
     capacity panic; a wrong ANSWER is a model bug."""
     root = mkscratch('selftest')
     ssrc = os.path.join(REPO, 'shared', 'src')
     mods = sorted(f[:-3] for f in os.listdir(ssrc) if f.endswith('.rs') and f != 'lib.rs')
     job = {'name': 'selftest', 'shared_roots': mods, 't1_shared': True, 'cap': cap}
+    if variant:
+        job['model'] = variant
     try:
         gen_scratch('_setup', job, root, t1=True)
     except Inconclusive as e:
@@ -975,7 +1010,7 @@ def cmd_selftest_model(cap=24):
         txt = m.group(1) if m else ''
         if 'vcoll capacity exceeded' not in txt:
             wrong.append((f, txt.strip()[-300:]))
-    log('[vk] selftest-model (CAP %d): %d pass, %d stop at the capacity panic, %d WRONG' % (cap, len(ok), len(failed) - len(wrong), len(wrong)))
+    log('[vk] selftest-model (%s, CAP %d): %d pass, %d stop at the capacity panic, %d WRONG' % (variant or 'holey', cap, len(ok), len(failed) - len(wrong), len(wrong)))
     for f, t in wrong:
         log('   WRONG %s: %s' % (f, t))
     if not ok and not failed:
